@@ -30,6 +30,7 @@ theorem recv_sound (hl : ∀ s, (cfg.lower s).length = s.length) (n : Nat) (ih :
   cases a with
   | any => unfold inst; rfl
   | unit => unfold inst; rfl
+  | callable p r k => exact recv_callable cfg sfh p r k b v h hi
   | undef => exact recv_undef cfg sfh b v h hi
   | dflt => exact recv_dflt cfg sfh b v h hi
   | scalar => exact recv_scalar cfg sfh n ih b v hw H h hi
